@@ -232,6 +232,36 @@ class P_subst(NestRecMixin0, SubstitutionMapper):
     pass
 
 
+class StateMixin:
+    """a mapper whose result depends on a setting of the instance"""
+    def __init__(self):
+        super().__init__()
+        self.mode = ""
+
+    def map_variable(self, expr):
+        _hook(self, "map_variable")
+        return type(expr)(expr.name + self.mode) if self.mode else expr
+
+
+class StateKeyMid(StateMixin, CachedIdentityMapper):
+    """... and whose cache key therefore carries that setting; the classes in use only
+    inherit the override from this middle base"""
+    def get_cache_key(self, expr):
+        return (type(expr), expr, self.mode)
+
+
+class C_state_0(StateKeyMid):
+    pass
+
+
+class C_state_AK(StateKeyMid):
+    pass
+
+
+class P_state(StateMixin, IdentityMapper):
+    pass
+
+
 class CallHookMixin:
     """__call__ is the documented place for a more convenient top-level interface: this one
     tags what it returns.  Recursion inside handlers goes through rec, not through here."""
@@ -372,11 +402,11 @@ ARITH = ["Variable", "Sum", "Product", "Quotient", "FloorDiv", "Remainder", "Pow
          "Comparison", "If", "Min", "Max", "CommonSubexpression", "LogicalAnd", "LogicalNot"]
 
 FAMS_BROAD = ["ident", "subst", "collect", "walk", "dep", "count", "combine", "plainopt",
-              "entry_subst", "hook", "twomod"]
+              "entry_subst", "hook", "twomod", "state"]
 FAMS_ARITH = ["eval", "csemix_eval", "flop", "ident", "combine", "dep", "count", "collect",
               "csemix_dep", "csemix_diff", "entry_subst", "entry_eval"]
 REWRITABLE = {"ident", "combine", "collect", "walk", "subst", "count", "flop", "plainopt",
-              "twomod"}
+              "twomod", "state"}
 EXTRAS_FAMS = {"ident", "twomod", "combine", "collect", "walk", "dep", "plainopt", "csemix_dep", "hook",
                "entry_subst", "entry_eval"}
 
@@ -385,7 +415,7 @@ def variant_for(fam, bits):
     if bits is None:
         return "0"
     da, dk, _ir, ic, _ik = (c == "1" for c in bits)
-    if fam in ("subst", "count", "flop"):
+    if fam in ("subst", "count", "flop", "state"):
         return "AK" if (da or dk or ic) else "0"
     if ic or (da and dk):
         return "AK"
@@ -404,7 +434,7 @@ def pick_variant(r, fam, bits):
     that overrides get_cache_key to a smaller key although nothing is dropped is a valid use
     as long as its instances are never given the extras the key leaves out)."""
     need = variant_for(fam, bits)
-    if fam in ("subst", "count", "flop") or bits is None:
+    if fam in ("subst", "count", "flop", "state") or bits is None:
         return need
     return need if r.random() < 0.7 else r.choice(STRICTER[need])
 
@@ -413,6 +443,10 @@ def valid_bits(fam, bits):
     da, dk, ir, ic, ik = (c == "1" for c in bits)
     if fam == "plainopt":
         return not ic and not ik
+    if fam == "state":
+        # the cache look-up that inline_cache writes into the handlers is keyed
+        # (type(expr), expr): that option is for classes whose key is just that
+        return not ic
     return True
 
 
@@ -577,6 +611,9 @@ def generate(seed, tier):
             for _ in range(20):
                 bits = house_bits if r.random() < 0.5 else "".join(
                     r.choice("01") for _ in range(5))
+                if fam == "state" and r.random() < 0.4:
+                    # the option sets a class with a key of its own is typically given
+                    bits = r.choice(["11001", "11101", "00001", "11000"])
                 if valid_bits(fam, bits) and (bits != "00000" or fam != "plainopt"):
                     break
             else:
@@ -585,6 +622,18 @@ def generate(seed, tier):
         if fam in ("eval", "csemix_eval"):
             cfg["vars"] = {v: ["fr", r.randint(-5, 9), r.choice([1, 1, 2, 3])]
                            for v in ["x", "y", "z", "xa"]}
+            ck = r.choice(["dict", "dict", "dict", "defaultdict", "late"])
+            if ck == "defaultdict":
+                # a context with implicit entries: names it has no item for get a default
+                for v in r.sample(["x", "y", "z", "xa"], r.randint(1, 2)):
+                    del cfg["vars"][v]
+                cfg["ctx_kind"] = ck
+                cfg["default"] = ["fr", r.randint(1, 9), 2]
+            elif ck == "late":
+                # the caller binds one more variable in its context after some calls
+                v = r.choice(["x", "y", "z", "xa"])
+                cfg["ctx_kind"] = ck
+                cfg["late"] = {"var": v, "value": cfg["vars"].pop(v), "at": r.randint(1, 6)}
         elif fam in ("dep", "csemix_dep"):
             cfg["flags"] = {
                 "include_subscripts": r.random() < 0.5, "include_lookups": r.random() < 0.5,
@@ -682,7 +731,11 @@ def generate(seed, tier):
                 fault = {"kind": "stack_exhaustion", "extra": r.randint(3, 40)}
             elif fault_mode == "async":
                 fault = {"kind": "async_interrupt", "nth": r.randint(1, 400)}
-        ops.append(["call", ins, et, args, kwargs, fault])
+        if fam == "state" and r.random() < 0.4:
+            ops.append(["call", ins, et, args, kwargs, fault,
+                        {"mode": r.choice(["", "_a", "_b"])}])
+        else:
+            ops.append(["call", ins, et, args, kwargs, fault])
     if wide_name is not None:
         ins = r.choice([i for i in insts if not i["family"].startswith(("entry", "csemix_diff"))]
                        or insts)
@@ -714,6 +767,8 @@ class _Inst:
         self.count_model = set()
         self.count_upper = set()
         self.async_hits = 0
+        self.mode = ""
+        self.live_ctx = None
         self.model = None
         self.inline_rec_no_cache = False
         self.faulted = False
@@ -829,6 +884,7 @@ def execute(scenario, open_sigs):
     events, known, probes, faults, states = [], [], {}, {}, set()
     insts = {}
     optclasses = {}
+    late_bound = {}
     pool_memo = {}
     violation = None
     steps = 0
@@ -904,6 +960,14 @@ def execute(scenario, open_sigs):
             return EntryPoint(fam, cls == "cached", alts or [[]])
         if fam in ("eval", "csemix_eval"):
             ctx = {k: B.build(v) for k, v in c.get("vars", {}).items()}
+            if c.get("ctx_kind") == "defaultdict":
+                import collections
+                dv = B.build(c["default"])
+                d = collections.defaultdict(lambda dv=dv: dv)
+                d.update(ctx)
+                ctx = d
+            elif c.get("ctx_kind") == "late" and late_bound.get(ins["inst"]):
+                ctx[c["late"]["var"]] = B.build(c["late"]["value"])
             sim = SimState()
             log = []
             fk = {n: FakeFunction(n, sim, log, co)
@@ -913,6 +977,7 @@ def execute(scenario, open_sigs):
             ctx["abs"] = abs
             if not fresh:
                 st.sim, st.fake_log, st.fakes = sim, log, fk
+                st.live_ctx = ctx
             return cls(ctx)
         if fam in ("dep", "csemix_dep"):
             return cls(**c.get("flags", {}))
@@ -1036,7 +1101,8 @@ def execute(scenario, open_sigs):
                 continue
             if kind != "call":
                 continue
-            _, ins, et, targs, tkwargs, fault = op
+            _, ins, et, targs, tkwargs, fault = op[:6]
+            knobs = op[6] if len(op) > 6 else {}
             prof_was = obs.active
             if prof_was:
                 sys.setprofile(None)
@@ -1050,6 +1116,19 @@ def execute(scenario, open_sigs):
                 if prof_was:
                     sys.setprofile(obs._prof)
                 continue
+            late = ins["cfg"].get("late")
+            if late and not late_bound.get(ins["inst"]) and len(st.history) >= late["at"] \
+                    and st.live_ctx is not None:
+                # the caller's own dict gets one more binding; the mapper was handed that dict
+                st.live_ctx[late["var"]] = B.build(late["value"])
+                late_bound[ins["inst"]] = True
+                if st.model is not None and isinstance(getattr(st.model, "context", None), dict):
+                    st.model.context[late["var"]] = B.build(late["value"])
+                probe("late_bindings")
+            if "mode" in knobs and fam == "state":
+                st.mode = knobs["mode"]
+                st.obj.mode = st.mode
+                probe("mode_changes")
             e = B.build(et)
             a = tuple(B.build(t) for t in targs)
             kw = {k: B.build(t) for k, t in tkwargs}
@@ -1065,6 +1144,8 @@ def execute(scenario, open_sigs):
             # ---- reference: non-memoizing counterpart, applied afresh, no faults
             _, plain_cls = classes_for(ins)
             fresh_obj = construct(plain_cls, ins, None, fresh=True)
+            if fam == "state":
+                fresh_obj.mode = st.mode
             fresh_walk = []
             fresh_obj.__dict__["_walk"] = fresh_walk
             mgot = None
@@ -1157,7 +1238,9 @@ def execute(scenario, open_sigs):
                     continue
                 if fam == "plainopt":
                     continue
-                n = st.once[cpt.key] = st.once.get(cpt.key, 0) + 1
+                # (a key of the state family is a key under the instance's current setting)
+                okey = cpt.key if fam != "state" else st.mode + "|" + cpt.key
+                n = st.once[okey] = st.once.get(okey, 0) + 1
                 if once_on and n > 1 + st.allow.get(cpt.key, 0):
                     what = ("optimize_mapper(inline_rec=True, inline_cache=False) on a cached "
                             "mapper bypasses the cache for recursive dispatch: shared "
@@ -1305,7 +1388,7 @@ def simplifications(scn):
     ops = scn["ops"]
     for i, op in enumerate(ops):
         if op[0] == "call":
-            _, ins, et, a, kw, fault = op
+            _, ins, et, a, kw, fault = op[:6]
             cands = []
             if fault is not None:
                 cands.append(["call", ins, et, a, kw, None])
